@@ -921,7 +921,7 @@ class Variable(CanBehaveLikeAVariable[T]):
             self._update_domain_(self._domain_source_.domain)
 
     def _update_domain_(self, domain):
-        if domain:
+        if domain is not None:
             new_domain = None
             if isinstance(domain, HashedIterable):
                 self._domain_ = domain
